@@ -416,6 +416,18 @@ def _pass_copy_prop(fn) -> bool:
                     for m in _own_nodes_of_stmt(lp):
                         if isinstance(m, (ast.stmt, ast.ExceptHandler)) and _conflicts(_stored_paths(m), free):
                             bad = True
+            if is_path and "[" in (_path_text(E) or ""):
+                # an indexed element of a mutable container: a mutating call on the container between the definition
+                # and a use changes what the index denotes
+                base = (_path_text(E) or "").split("[")[0]
+                for st in idx.stmts:
+                    o = idx.order[id(st)]
+                    if so < o < last or (o == last and False):
+                        for m in [st] + list(_own_nodes_of_stmt(st)):
+                            if isinstance(m, ast.Call) and isinstance(m.func, ast.Attribute) and (_path_text(m.func.value) or "") .startswith(base) and m.func.attr in MUTATORS:
+                                bad = True
+                for lp in idx.loops_of(S):
+                    pass
             ok = not bad
         elif pure and has_call:
             ok = all(in_next_stmt_head(u) for u in own)
@@ -477,9 +489,12 @@ def normalize_tree(tree: ast.Module) -> ast.Module:
         for st in body:
             if isinstance(st, FuncNode):
                 ctx = _Ctx(tree, cls, outer)
-                for _ in range(40):
+                for _ in range(60):
                     ch = _pass_inline_setters(st, cls)
                     ch = ch or _pass_inline_helpers(st, ctx)
+                    ch = ch or _pass_eta_expand(st)
+                    ch = ch or _pass_unpack_paths(st)
+                    ch = ch or _pass_split_ranges(st)
                     ch |= _pass_store_then_read(st)
                     ch |= _pass_copy_prop(st)
                     if not ch:
@@ -767,6 +782,22 @@ class _Ctx:
         self.cls = cls
         self.outer = outer  # enclosing functions, innermost last
 
+    def resolve_generator(self, func_expr, in_fn):
+        """A private generator function (module level or method): its `yield v` statements will be read as `return v`."""
+        cands = []
+        if isinstance(func_expr, ast.Name) and _is_private(func_expr.id) and func_expr.id not in PROTECTED:
+            cands = [(n, False) for n in self.module.body if isinstance(n, FuncNode) and n.name == func_expr.id]
+        elif isinstance(func_expr, ast.Attribute) and isinstance(func_expr.value, ast.Name) and func_expr.value.id == "self" and self.cls is not None and _is_private(func_expr.attr) and func_expr.attr not in PROTECTED:
+            cands = [(m, True) for m in self.cls.body if isinstance(m, FuncNode) and m.name == func_expr.attr]
+        for g, ds in cands:
+            if isinstance(g, ast.AsyncFunctionDef) or g.decorator_list or g.args.vararg or g.args.kwarg or g.args.kwonlyargs:
+                continue
+            ys = [n for n in _own_nodes(g) if isinstance(n, (ast.Yield, ast.YieldFrom))]
+            stmts = [n for n in _own_nodes(g) if isinstance(n, ast.Expr) and isinstance(n.value, ast.Yield)]
+            if ys and len(ys) == len(stmts) and not _returns(g.body) and not any(isinstance(y, ast.YieldFrom) for y in ys):
+                return g, ds
+        return None, False
+
     def resolve(self, func_expr, in_fn) -> Tuple[Optional[ast.AST], bool]:
         """(callee def, drop_self)"""
         if isinstance(func_expr, ast.Attribute) and isinstance(func_expr.value, ast.Name) and func_expr.value.id == "self" and self.cls is not None:
@@ -819,8 +850,20 @@ def _pass_inline_helpers(fn, ctx: "_Ctx") -> bool:
             v = st.value.value if isinstance(st.value, ast.Await) else st.value
             if isinstance(v, ast.Call):
                 call, mode = v, "R"
-        if call is not None:
+        gen_default = None
+        if call is not None and isinstance(call.func, ast.Name) and call.func.id == "next" and len(call.args) == 2 and isinstance(call.args[0], ast.Call) and not call.keywords:
+            # next(G(args), default) on a fresh private generator: run G up to its first `yield v` (-> v), else default
+            inner = call.args[0]
+            g, ds = ctx.resolve_generator(inner.func, fn)
+            if g is not None:
+                gen_default = call.args[1]
+                call = inner
+                callee, drop_self = _degenerate(g, gen_default), ds
+            else:
+                callee, drop_self = None, False
+        elif call is not None:
             callee, drop_self = ctx.resolve(call.func, fn)
+        if call is not None:
             if callee is not None and (isinstance(callee, ast.AsyncFunctionDef) == isinstance(getattr(st, "value", None), ast.Await)):
                 names = names or _caller_names(fn)
                 keep = set()
@@ -911,23 +954,27 @@ def _pass_inline_helpers(fn, ctx: "_Ctx") -> bool:
                 target, pre, site = hit, [], hit
             else:
                 continue
-            if not (isinstance(target, ast.Attribute) and isinstance(target.value, ast.Name) and target.value.id == "self"):
+            is_method = isinstance(target, ast.Attribute) and isinstance(target.value, ast.Name) and target.value.id == "self"
+            is_func = isinstance(target, ast.Name) and isinstance(n, ast.Call) and q.dotted(n.func) in ("functools.partial", "partial")
+            if not (is_method or is_func):
                 continue
             callee, drop_self = ctx.resolve(target, fn)
-            if callee is None or not drop_self or isinstance(callee, ast.AsyncFunctionDef):
+            if callee is None or isinstance(callee, ast.AsyncFunctionDef) or (is_method and not drop_self):
                 continue
-            params = [a.arg for a in callee.args.args][1:]
+            if is_func and any(callee is x for x in _own_nodes(fn)):
+                continue  # partial of a local closure: leave
+            params = [a.arg for a in callee.args.args][1 if drop_self else 0:]
             if len(pre) > len(params) or any(isinstance(a, ast.Starred) for a in pre):
                 continue
             names = names or _caller_names(fn)
             fake = ast.Call(func=target, args=[ast.Name(id=p, ctx=ast.Load()) for p in params[len(pre):]], keywords=[])
-            bound = _bind(callee, fake, True, names - set(params[len(pre):]), pre_bound=pre)
+            bound = _bind(callee, fake, drop_self, names - set(params[len(pre):]), pre_bound=pre)
             if bound is None:
                 continue
             prefix, body = bound
             cbname = _fresh(callee.name.lstrip("_") or "cb")
             rest = copy.deepcopy(callee.args)
-            rest.args = rest.args[1 + len(pre):]
+            rest.args = rest.args[(1 if drop_self else 0) + len(pre):]
             rest.defaults = rest.defaults[-len(rest.args):] if rest.args and rest.defaults else []
             newdef = ast.FunctionDef(name=cbname, args=rest, body=(prefix + body) or [ast.Pass()], decorator_list=[], returns=None, type_comment=None, type_params=[])
             _swap_node(st, site, ast.Name(id=cbname, ctx=ast.Load()))
@@ -1016,6 +1063,8 @@ def _loop_return_inline(b, i, st, prefix, body) -> bool:
     stmts = list(body)
     if stmts and isinstance(stmts[-1], ast.Return) and (stmts[-1].value is None or q.is_const(stmts[-1].value, None)):
         stmts = stmts[:-1]
+    elif stmts and isinstance(stmts[-1], ast.Return):
+        return False
     if not stmts or not isinstance(stmts[-1], ast.While) or stmts[-1].orelse:
         return False
     loop = stmts[-1]
@@ -1075,3 +1124,129 @@ def _decide_with_none(test, name) -> Optional[bool]:
         if isinstance(test.ops[0], ast.IsNot):
             return False
     return None
+
+
+def _degenerate(g, default):
+    """Copy of generator function ``g`` with `yield v` statements turned into `return v` and a final `return default`:
+    what `next(g(...), default)` computes on a fresh generator."""
+    g2 = copy.deepcopy(g)
+
+    class T(ast.NodeTransformer):
+        def visit_Expr(self, node):
+            if isinstance(node.value, ast.Yield):
+                return ast.copy_location(ast.Return(value=node.value.value), node)
+            return node
+
+        def visit_FunctionDef(self, node):
+            return node if node is not g2 else self.generic_visit(node)
+
+        visit_AsyncFunctionDef = visit_FunctionDef
+
+        def visit_Lambda(self, node):
+            return node
+
+    g2.body = [T().visit(st) for st in g2.body]
+    g2.body.append(ast.Return(value=copy.deepcopy(default)))
+    ast.fix_missing_locations(g2)
+    return g2
+
+
+CALLBACK_TAKERS = {"add_done_callback"}
+
+
+def _pass_eta_expand(fn) -> bool:
+    """`F.add_done_callback(P.m)` with a bound method of some object (not a private method of self, which N7 handles)
+    ->  `F.add_done_callback(lambda _x: P.m(_x))`: a done-callback receives exactly the future."""
+    changed = False
+    for n in list(_own_nodes(fn)):
+        if isinstance(n, ast.Call) and isinstance(n.func, ast.Attribute) and n.func.attr in CALLBACK_TAKERS and len(n.args) == 1 and not n.keywords:
+            a = n.args[0]
+            if isinstance(a, ast.Attribute) and _path_text(a.value) is not None and not (isinstance(a.value, ast.Name) and a.value.id == "self"):
+                arg = _fresh("x")
+                lam = ast.Lambda(args=ast.arguments(posonlyargs=[], args=[ast.arg(arg=arg)], kwonlyargs=[], kw_defaults=[], defaults=[]),
+                                 body=ast.Call(func=a, args=[ast.Name(id=arg, ctx=ast.Load())], keywords=[]))
+                for x in ast.walk(lam):
+                    ast.copy_location(x, a)
+                n.args[0] = lam
+                changed = True
+    return changed
+
+
+def _pass_unpack_paths(fn) -> bool:
+    """N10: `a, b = P[i]` (P[i] a side-effect-free path, all targets plain names or `_`)  ->  `a = P[i][0]; b = P[i][1]`."""
+    changed = False
+    idx = _Index(fn)
+    for st in list(idx.stmts):
+        if isinstance(st, ast.Assign) and len(st.targets) == 1 and isinstance(st.targets[0], ast.Tuple) and _path_text(st.value) is not None \
+                and isinstance(st.value, ast.Subscript) and all(isinstance(e, ast.Name) for e in st.targets[0].elts):
+            b, i = idx.block_and_index(st)
+            if b is None:
+                continue
+            new = []
+            for k, e in enumerate(st.targets[0].elts):
+                if e.id == "_":
+                    continue
+                new.append(ast.Assign(targets=[ast.Name(id=e.id, ctx=ast.Store())], value=ast.Subscript(value=copy.deepcopy(st.value), slice=ast.Constant(value=k), ctx=ast.Load())))
+            b[i:i + 1] = _loc(new or [ast.Pass()], st)
+            changed = True
+            idx = _Index(fn)
+    return changed
+
+
+def _pass_split_ranges(fn) -> bool:
+    """N9: a local re-bound in straight-line code of one block (`x = P; ...; x -= 1; P = x`) is split into one name per
+    definition, so that each is a single-store local the other passes can resolve."""
+    idx = _Index(fn)
+    params = _params(fn)
+    stores: Dict[str, List[ast.AST]] = {}
+    for st in idx.stmts:
+        for p in _stored_paths(st):
+            if p.isidentifier():
+                stores.setdefault(p, []).append(st)
+    nested_names = {n.id for sc in _nested_scopes(fn) for n in ast.walk(sc) if isinstance(n, ast.Name)}
+    for x, sts in stores.items():
+        if len(sts) < 2 or x in params or x in nested_names or x in ("self", "cls", "_"):
+            continue
+        if not all(isinstance(st, (ast.Assign, ast.AnnAssign, ast.AugAssign)) for st in sts):
+            continue
+        if not all((isinstance(st, ast.Assign) and len(st.targets) == 1 and isinstance(st.targets[0], ast.Name)) or (isinstance(st, (ast.AnnAssign, ast.AugAssign)) and isinstance(st.target, ast.Name)) for st in sts):
+            continue
+        b0, i0 = idx.block_and_index(sts[0])
+        if b0 is None or any(idx.block_and_index(st)[0] is not b0 for st in sts):
+            continue
+        if idx.loops_of(sts[0]):
+            continue  # a loop body re-enters: the ranges are not straight-line
+        pos = sorted(idx.block_and_index(st)[1] for st in sts)
+        # every read of x lies in the block from the first definition on
+        inside = set()
+        for later in b0[pos[0]:]:
+            inside.add(id(later))
+            for m in _own_nodes_of_stmt(later):
+                inside.add(id(m))
+        loads = _loads(fn, x)
+        if not all(id(u) in inside for u in loads) or (isinstance(b0[pos[0]], ast.AugAssign)):
+            continue
+        # rename
+        cur = None
+        for j in range(pos[0], len(b0)):
+            st = b0[j]
+            is_def = j in pos
+            reads = [m for m in ([st] + list(_own_nodes_of_stmt(st))) if isinstance(m, ast.Name) and m.id == x and isinstance(m.ctx, ast.Load)]
+            if is_def:
+                new = _fresh(x)
+                if isinstance(st, ast.AugAssign):
+                    val = ast.BinOp(left=ast.Name(id=cur, ctx=ast.Load()), op=st.op, right=st.value)
+                    for r in [m for m in ast.walk(st.value) if isinstance(m, ast.Name) and m.id == x]:
+                        r.id = cur
+                    b0[j] = _loc([ast.Assign(targets=[ast.Name(id=new, ctx=ast.Store())], value=val)], st)[0]
+                else:
+                    for r in reads:
+                        r.id = cur if cur is not None else r.id
+                    tgt = st.targets[0] if isinstance(st, ast.Assign) else st.target
+                    tgt.id = new
+                cur = new
+            else:
+                for r in reads:
+                    r.id = cur
+        return True
+    return False
